@@ -57,6 +57,12 @@ def main():
             for s in strs: w(f, "STR", s)
             f.write("END\n"); meta[str(cid)] = {"family": fam, "pattern": p, "n_strings": len(strs)}; cid += 1
         for p in FORCED: pat_case(p, "forced")
+        # repetition counts with three digits need strings that long
+        A = lambda n, tail="": [97] * n + [ord(c) for c in tail]
+        pat_case("a{100}", "forced-count", [A(100), A(10), A(99), A(101), A(1), []])
+        pat_case("a{123}b", "forced-count", [A(123, "b"), A(33, "b"), A(122, "b"), A(124, "b"), A(123)])
+        pat_case("(ab){101}c", "forced-count", [[97, 98] * 101 + [99], [97, 98] * 11 + [99], [97, 98] * 100 + [99], [97, 98] * 101])
+        pat_case("b[01]{128}", "forced-count", [[98] + [48, 49] * 64, [98] + [48] * 38, [98] + [49] * 127, [98] + [48] * 129])
         for p in DET_ONLY: pat_case(p, "deterministic")
         for _ in range(npat):
             if rng.random() < 0.3: pat_case(rand_pattern(rng, rng.randint(1, 4), SIMPLE_ATOMS), "random-simple")
